@@ -134,7 +134,16 @@ pub fn build_sysv_case(rng: &mut Rng, is64: bool, le: bool, nnames: usize, nbuck
     let (strtab, offs) = build_strtab(&names);
     let syms: Vec<SymSpec> = names.iter().enumerate().map(|(i, n)| default_sym(n, i)).collect();
     let symtab = build_symtab(is64, le, &syms, &offs);
-    let hash = build_sysv_hash(le, nbucket, &names);
+    // chains threaded newest-first (ld), oldest-first, or in a random order: all are gABI-conformant
+    let hash = match rng.below(3) {
+        0 => build_sysv_hash(le, nbucket, &names),
+        1 => build_sysv_hash_ordered(le, nbucket, &names, 1, &[]),
+        _ => {
+            let mut perm: Vec<usize> = (1..names.len()).collect();
+            for i in (1..perm.len()).rev() { let j = rng.below(i as u64 + 1) as usize; perm.swap(i, j); }
+            build_sysv_hash_ordered(le, nbucket, &names, 2, &perm)
+        }
+    };
     HashCase { symtab, strtab, hash, names, first_hashed: 1 }
 }
 
@@ -299,8 +308,42 @@ pub fn gen_hash(kind: &str, rng: &mut Rng, n: usize, thorough: bool) -> Vec<Case
                 put(&mut h, le, 4, nxt as u64);
             }
             out.push((format!("sysv {} {} {} {} {} {}", le as u8, cls(is64), hex(&symtab), hex(&strtab), hex(b"absent-name"), hex(&h)), "wf=0|adversarial".into()));
+            // the same cycle through symbols of every type (section and file symbols included)
+            for ty in [3u8, 4, 0, 6] {
+                let syms2: Vec<SymSpec> = names.iter().enumerate().map(|(i, n)| { let mut s = default_sym(n, i); if i >= 1 { s.info = (s.info & 0xf0) | ty; } s }).collect();
+                let symtab2 = build_symtab(is64, le, &syms2, &offs);
+                out.push((format!("sysv {} {} {} {} {} {}", le as u8, cls(is64), hex(&symtab2), hex(&strtab), hex(b"absent-name"), hex(&h)), "wf=0|adversarial".into()));
+            }
         }
     } else {
+        // soundness with a queried name that contains a NUL: `s\0t` where `t` is the string that follows `s` in the
+        // string table, on a table whose chain entry for `s` is forged to carry the query's hash (one bucket, bloom all ones)
+        for k in 0..6usize {
+            let is64 = k % 2 == 0;
+            let le = k % 3 != 0;
+            let names: Vec<Vec<u8>> = vec![vec![], b"memcpy".to_vec(), b"aprfigg".to_vec(), b"init".to_vec(), b"zz".to_vec()];
+            let (strtab, offs) = build_strtab(&names);
+            let syms: Vec<SymSpec> = names.iter().enumerate().map(|(i, n)| default_sym(n, i)).collect();
+            let symtab = build_symtab(is64, le, &syms, &offs);
+            let target = 1 + k % 3;
+            let mut q = names[target].clone();
+            q.push(0);
+            q.extend(&names[target + 1]);
+            let hq = ref_gnu_hash(&q);
+            let mut h = vec![];
+            put(&mut h, le, 4, 1); put(&mut h, le, 4, 1); put(&mut h, le, 4, 1); put(&mut h, le, 4, (k % 7) as u64);
+            put(&mut h, le, if is64 { 8 } else { 4 }, u64::MAX);
+            put(&mut h, le, 4, 1);
+            for i in 1..names.len() {
+                let real = ref_gnu_hash(&names[i]);
+                let v = if i == target { hq } else { real };
+                let stop = if i + 1 == names.len() { 1 } else { 0 };
+                put(&mut h, le, 4, ((v & !1) | stop) as u64);
+            }
+            out.push((format!("gnu {} {} {} {} {} {}", le as u8, cls(is64), hex(&symtab), hex(&strtab), hex(&q), hex(&h)), "wf=0|forged-nul".into()));
+            // and the plain name, still found
+            out.push((format!("gnu {} {} {} {} {} {}", le as u8, cls(is64), hex(&symtab), hex(&strtab), hex(&names[4]), hex(&h)), "wf=0|forged-nul".into()));
+        }
         for len in [1usize, 2, 5, 17, 64] {
             let is64 = len % 2 == 0;
             let le = true;
@@ -337,7 +380,10 @@ pub struct VerModel {
 pub fn rand_ver_model(rng: &mut Rng, thorough: bool) -> VerModel {
     let nneeds = if thorough { rng.below(41) } else { rng.below(5) } as usize;
     let ndefs = if thorough { rng.below(41) } else { rng.below(5) } as usize;
-    let mut next_idx: u16 = 2;
+    // version indexes are 15-bit: usually small, sometimes right below 2^15 (where, with the hidden bit, the raw
+    // versym value is ≥ 0xff00)
+    let mut next_idx: u16 = if rng.chance(1, 4) { 0x7f00 - rng.below(3) as u16 } else { 2 };
+    let first_idx = next_idx;
     let mut strings: Vec<Vec<u8>> = vec![];
     let mut defs = vec![];
     for _ in 0..ndefs {
@@ -356,7 +402,7 @@ pub fn rand_ver_model(rng: &mut Rng, thorough: bool) -> VerModel {
         for _ in 0..na {
             let name = { let mut s = b"GLIBC_".to_vec(); s.extend(rand_name(rng)); s };
             strings.push(name.clone());
-            let other = if rng.chance(1, 10) && next_idx > 2 { rng.range(2, next_idx as u64 - 1) as u16 } else { let i = next_idx; next_idx += 1; i };
+            let other = if rng.chance(1, 10) && next_idx > first_idx { rng.range(first_idx as u64, next_idx as u64 - 1) as u16 } else { let i = next_idx; next_idx += 1; i };
             auxs.push((name, rng.next() as u32, rng.below(4) as u16, other));
         }
         needs.push(VerNeedSpec { file, auxs });
@@ -369,10 +415,10 @@ pub fn rand_ver_model(rng: &mut Rng, thorough: bool) -> VerModel {
             let base = match rng.below(6) {
                 0 => 0u16,
                 1 => 1,
-                2 => next_idx + rng.below(5) as u16, // unknown
-                _ => if next_idx > 2 { rng.range(2, next_idx as u64 - 1) as u16 } else { 1 },
+                2 => (next_idx + rng.below(5) as u16) & 0x7fff, // unknown
+                _ => if next_idx > first_idx { rng.range(first_idx as u64, next_idx as u64 - 1) as u16 } else { 1 },
             };
-            if rng.chance(1, 4) { base | 0x8000 } else { base }
+            if rng.chance(1, 3) { base | 0x8000 } else { base }
         })
         .collect();
     VerModel { needs, defs, versym, strtab, str_offs }
